@@ -313,6 +313,103 @@ pub fn emit(nodes: &[Node], roots: &[u32], o: &EmitOpts) -> Emitted {
     Emitted { text: s, names, vars, obligations }
 }
 
+/// Log-linear emission: every positive term t is represented by a real variable standing for log t.
+/// Products, quotients, constant rational powers and square roots become linear expressions, so
+/// multiplicative identities and monomial inequalities are decided exactly in linear real arithmetic.
+/// Variables and cut nodes are free (they must be positive: caller's duty, stated with the goal);
+/// sums and everything else are opaque positive quantities (a fresh free variable each);
+/// zero / negative constants have no image (conditions mentioning them are dropped, which is sound).
+pub fn emit_loglin(nodes: &[Node], roots: &[u32], cuts: &HashMap<u32, Cut>, prefix: &str) -> Emitted {
+    let order = cone(nodes, roots, cuts);
+    let mut names: HashMap<u32, String> = HashMap::new();
+    let mut s = String::new();
+    let mut vars = BTreeSet::new();
+    let mut consts: HashMap<BigRational, String> = HashMap::new();
+    let mut k = 0usize;
+    use num::{One, Zero};
+    for &i in &order {
+        let nm = format!("{}{}", prefix, k);
+        k += 1;
+        if let Some(cut) = cuts.get(&i) {
+            let ln = format!("L_{}", cut.name);
+            if vars.insert(ln.clone()) {
+                writeln!(s, "(declare-const {} Real)", ln).unwrap();
+                for c in &cut.constraints {
+                    // known constraint shapes, translated to log space
+                    let c = c.replace(' ', "");
+                    if c == "(<={}1.0)" {
+                        writeln!(s, "(assert (<= {} 0.0))", ln).unwrap();
+                    } else if c == "(<{}1.0)" {
+                        writeln!(s, "(assert (< {} 0.0))", ln).unwrap();
+                    }
+                }
+            }
+            names.insert(i, ln);
+            continue;
+        }
+        let g = |j: &u32| names.get(j).cloned();
+        let fresh = |s: &mut String, nm: &str| {
+            writeln!(s, "(declare-const {} Real)", nm).unwrap();
+        };
+        let expr: Option<String> = match &nodes[i as usize] {
+            Node::Var(name) => {
+                let ln = format!("L_{}", name);
+                if vars.insert(ln.clone()) {
+                    writeln!(s, "(declare-const {} Real)", ln).unwrap();
+                }
+                names.insert(i, ln);
+                continue;
+            }
+            Node::Const(c) => {
+                if c.is_one() {
+                    Some("0.0".into())
+                } else if *c > BigRational::zero() {
+                    let n = consts.len();
+                    let cn = consts.entry(c.clone()).or_insert_with(|| format!("lc{}", n)).clone();
+                    if vars.insert(cn.clone()) {
+                        writeln!(s, "(declare-const {} Real)", cn).unwrap();
+                        // the only fact used about a constant's logarithm is its sign
+                        if *c > BigRational::one() {
+                            writeln!(s, "(assert (> {} 0.0))", cn).unwrap();
+                        } else {
+                            writeln!(s, "(assert (< {} 0.0))", cn).unwrap();
+                        }
+                    }
+                    Some(cn)
+                } else {
+                    None
+                }
+            }
+            Node::Mul(a, b) => match (g(a), g(b)) {
+                (Some(x), Some(y)) => Some(format!("(+ {} {})", x, y)),
+                _ => None,
+            },
+            Node::Div(a, b) => match (g(a), g(b)) {
+                (Some(x), Some(y)) => Some(format!("(- {} {})", x, y)),
+                _ => None,
+            },
+            Node::Pow(a, e) => g(a).map(|x| format!("(* {} {})", rat_smt(e), x)),
+            Node::Sqrt(a) => g(a).map(|x| format!("(* 0.5 {})", x)),
+            Node::Pi => {
+                if vars.insert("lpi".into()) {
+                    writeln!(s, "(declare-const lpi Real)\n(assert (> lpi 0.0))").unwrap();
+                }
+                Some("lpi".into())
+            }
+            _ => {
+                fresh(&mut s, &nm);
+                names.insert(i, nm);
+                continue;
+            }
+        };
+        if let Some(e) = expr {
+            writeln!(s, "(define-fun {} () Real {})", nm, e).unwrap();
+            names.insert(i, nm);
+        }
+    }
+    Emitted { text: s, names, vars, obligations: vec![] }
+}
+
 pub fn atom_smt(e: &Emitted, a: &Atom, v: bool, fp: bool) -> String {
     let (op, x, y) = match a {
         Atom::Lt(x, y) => (if fp { "fp.lt" } else { "<" }, x, y),
